@@ -193,6 +193,22 @@ def run(ctx: Context) -> None:
                 if in_prune:
                     continue
                 ctx.add("R1", f"{c.qualname}::prune-before-count", okc, loop.loc(cnt), "" if okc else f"len(self.{table}) is read before dead workers are removed: the spawn decision uses a count that still includes them")
+        # every dead worker is forgotten: the test that selects what to forget is exactly `not <proc>.is_alive()`; a further
+        # conjunct (exit code, age, ...) keeps some dead workers in the table for ever and the pool is never refilled for them
+        for mname in reach:
+            m = c.find_method(mname)
+            if m is None or not any(pm_ is m for pm_, _ in reach_prunes):
+                continue
+            conds = []
+            for n in walk_no_nested(m.node):
+                if isinstance(n, ast.comprehension):
+                    conds += [x for x in n.ifs if "is_alive()" in ast.unparse(x)]
+                elif isinstance(n, (ast.If, ast.IfExp)) and "is_alive()" in ast.unparse(n.test):
+                    conds.append(n.test)
+            for cond in conds:
+                core = cond.operand if isinstance(cond, ast.UnaryOp) and isinstance(cond.op, ast.Not) else cond
+                exact = isinstance(core, ast.Call) and call_name(core) == "is_alive"
+                ctx.add("R1", f"{c.qualname}::{m.name}::every-dead-worker-is-selected", exact, m.loc(cond), "" if exact else f"the liveness test `{ast.unparse(cond)[:70]}` carries a further condition: workers that are dead but do not meet it (e.g. exit code 0 after SIGTERM) stay in the tracking table, are counted as capacity and are never replaced")
         # R2: capacity comparison
         found = False
         detail = "no comparison of the tracked count with a capacity attribute on the way to the spawn"
